@@ -10,6 +10,7 @@ from ..scen import Scn, call, up
 
 NODESETS = [[(1, 0, 0)], [(0, 0, 0), (1, 0, 0)], [(1, 0, 0), (1, 2, 0), (3, 0, 0)], [(1, 0, 0), (1, 2, 0), (1, 2, 3), (7, 0, 0)],
             [(1, 200, 0), (2, 200, 0), (200, 0, 0)], [(1, 1, 144), (1, 2, 144), (2, 1, 144), (1, 144, 0)]]      # same high byte under different parents
+MAXSIZE = ['bidib_send_vendor_get', 'bidib_send_vendor_set', 'bidib_send_string_set', 'bidib_send_fw_update_op_data']
 UNRELATED = ['MSG_BM_CURRENT', 'MSG_BM_SPEED', 'MSG_BOOST_CURRENT', 'MSG_LC_WAIT', 'MSG_BM_DYN_STATE']
 
 def fn_by_type():
@@ -52,12 +53,17 @@ def gen_seq(ctx, k, clean):
     if k % 5 == 4:
         # a long queue: the budget of one node is used up by unanswered requests, then 130-260 further messages (more than any of the
         # library's bounded queues holds) are submitted and held; they all go out, in order, once the answers arrive
-        ad = rng.choice(nodes)
+        ad = rng.choice([x for x in nodes if x[2]] or nodes) if rng.random() < 0.6 else rng.choice(nodes)
         for j in range(rng.randrange(140, 270)):
             full = bool(fl.node(ad).held)
             t = rng.choice(zero_types if full and rng.random() < 0.8 else big if not full else req_types)
             name = rng.choice(byt[t])
-            nm, ad2, a, data = gen.random_call(rng, ad, names=[name], hot=0.2, long_bias=0.05)
+            lb = 0.05
+            if ad[2] and full and rng.random() < 0.3:
+                # a message of the largest size there is (length byte 127: deepest address level, longest argument) that has to wait
+                name, lb = rng.choice(MAXSIZE), 1.0
+                t = model.C(S.rows()[name]['type'])
+            nm, ad2, a, data = gen.random_call(rng, ad, names=[name], hot=0.2, long_bias=lb)
             if ad2 != ad:
                 continue
             sc.add(call(nm, *S.tokens(nm, ad, a)))
@@ -78,7 +84,11 @@ def gen_seq(ctx, k, clean):
         if r < 0.5:
             t = rng.choice(big) if rng.random() < 0.45 else rng.choice(req_types) if rng.random() < 0.8 else rng.choice(zero_types)
             name = rng.choice(byt[t])
-            nm, ad2, a, data = gen.random_call(rng, ad, names=[name], hot=0.2, long_bias=0.05)
+            lb = 0.05
+            if ad[2] and (n.held or fl.blocked_by_stall(ad)) and rng.random() < 0.3:
+                name, lb = rng.choice(MAXSIZE), 1.0
+                t = model.C(S.rows()[name]['type'])
+            nm, ad2, a, data = gen.random_call(rng, ad, names=[name], hot=0.2, long_bias=lb)
             if ad2 != ad:
                 ad = ad2
                 n = fl.node(ad)
